@@ -433,9 +433,19 @@ def app(name, *args, **kw):
         args = tuple(flat)
     if name in COMMUTATIVE_APPS:
         args = tuple(sorted(args, key=vkey))
+    if name == 'abs' and len(args) == 1 and isinstance(args[0], Poly) and not kw:
+        args = (_abs_canonical(args[0]),)
     if kw:
         args = args + (Tup([Tup([Const(k), v]) for k, v in sorted(kw.items())], 'tuple'),)
     return Poly.atom(('app', name, args))
+
+
+def _abs_canonical(p):
+    """|p| = |-p|: of p and -p the one whose key sorts first"""
+    if not p.terms:
+        return p
+    first = min(p.terms, key=lambda t: repr(t[0]))          # a fixed term of the polynomial: make its coefficient positive
+    return p if first[1] > 0 else -p
 
 
 def attr(base, name):
@@ -727,6 +737,8 @@ def subst_atom(a, mapping):
         name, args = a[1], new[1]
         if name in COMMUTATIVE_APPS:
             args = tuple(sorted(args, key=vkey))
+        if name == 'abs' and len(args) == 1 and isinstance(args[0], Poly):
+            return app('abs', args[0])          # |x| = |-x|: one representative
         if name == 'floor' and isinstance(args[0], Poly):
             return floor(args[0])
         if name == 'ceil' and isinstance(args[0], Poly):
